@@ -123,3 +123,82 @@ fn cleanup_hands_out_every_due_bucket() {
         }
     }
 }
+
+#[test]
+fn store_cleanup_removes_only_expired() {
+    if !only("store_cleanup_removes_only_expired") { return; }
+    use crate::policy::LFUPolicy;
+    use crate::store::ShardedMap;
+    use std::sync::Arc;
+    let mut rng = Rng::new(13);
+    for _ in 0..iters(300) {
+        let s: ShardedMap<u64> = ShardedMap::new();
+        let p = Arc::new(LFUPolicy::new(100, 1000).unwrap());
+        let now_s = SystemTime::now().duration_since(UNIX_EPOCH).unwrap().as_secs();
+        let mut script = Vec::new();
+        let mut model: std::collections::HashMap<u64, (u64, Time)> = Default::default();
+        let nkeys = 2 + rng.below(5);
+        for _ in 0..(2 + rng.below(8)) {
+            let k = rng.below(nkeys);
+            match rng.below(8) {
+                0 => { s.clear(); p.clear(); model.clear(); script.push("store.clear(); policy.clear()".to_string()); }
+                1 => { if s.try_remove(&k, 0).unwrap().is_some() { p.remove(&k); } model.remove(&k); script.push(format!("try_remove({})", k)); }
+                _ => {
+                    // created 5..20 s ago; ttl: none, already elapsed, or still running
+                    let age = 5 + rng.below(15);
+                    let ttl_ms = match rng.below(3) { 0 => 0, 1 => 1000 * (1 + rng.below(age - 2)), _ => 1000 * (age + 5 + rng.below(100)) };
+                    let tm = t(now_s - age, (rng.below(1000) * 1_000_000) as u32, ttl_ms);
+                    let v = rng.below(1000);
+                    if model.contains_key(&k) {
+                        let _ = s.try_update(k, v, 0, tm).unwrap();
+                        script.push(format!("try_update(k={}, ttl={}ms, created {}s ago)", k, ttl_ms, age));
+                    } else {
+                        s.try_insert(k, v, 0, tm).unwrap();
+                        p.add(k, 1);
+                        script.push(format!("try_insert(k={}, ttl={}ms, created {}s ago)", k, ttl_ms, age));
+                    }
+                    model.insert(k, (v, tm));
+                }
+            }
+        }
+        script.push("try_cleanup(policy)".to_string());
+        let removed = s.try_cleanup(p.clone()).unwrap();
+        let removed_keys: Vec<u64> = removed.iter().map(|i| i.index).collect();
+        for (k, (v, tm)) in &model {
+            let expired_ttl = !tm.is_zero() && tm.is_expired();
+            let resident = s.expiration(k).is_some();
+            if !resident && !expired_ttl {
+                fail("store_cleanup_removes_only_expired", "C04,C05:cleanup.only-expired-ttl-entries-removed", &["C04", "C05", "C03", "C11"], "ShardedMap::try_cleanup", script.join("; "),
+                    format!("key {} (value {}, ttl {:?}, zero={}) was swept", k, v, tm.d, tm.is_zero()), "cleanup removes only entries whose TTL has elapsed".into());
+                return;
+            }
+            if resident && expired_ttl && storage_bucket(*tm) <= now_s as i64 {
+                fail("store_cleanup_removes_only_expired", "C05:cleanup.reclaims-every-expired-entry", &["C05"], "ShardedMap::try_cleanup", script.join("; "),
+                    format!("key {} expired (bucket {}) but still resident", k, storage_bucket(*tm)), "every expired entry in a due bucket is reclaimed".into());
+                return;
+            }
+            if !resident {
+                if removed_keys.iter().filter(|x| *x == k).count() != 1 {
+                    fail("store_cleanup_removes_only_expired", "C05,C08:cleanup.handed-out-once", &["C05", "C08"], "ShardedMap::try_cleanup", script.join("; "),
+                        format!("key {} handed out {} times", k, removed_keys.iter().filter(|x| *x == k).count()), "exactly once".into());
+                    return;
+                }
+                if p.contains(k) {
+                    fail("store_cleanup_removes_only_expired", "C06:cleanup.charge-released", &["C06", "C05"], "ShardedMap::try_cleanup", script.join("; "), format!("key {} still charged", k), "charge released".into());
+                    return;
+                }
+            } else if !p.contains(k) {
+                fail("store_cleanup_removes_only_expired", "C06:cleanup.charges-only-released-for-expired", &["C06"], "ShardedMap::try_cleanup", script.join("; "), format!("resident key {} lost its charge", k), "charge kept".into());
+                return;
+            }
+        }
+        for it in &removed {
+            if it.cost != 1 || it.val != model.get(&it.index).map(|x| x.0) {
+                fail("store_cleanup_removes_only_expired", "C05,C08,C16:cleanup.handed-out", &["C05", "C08", "C16"], "ShardedMap::try_cleanup", script.join("; "),
+                    format!("item {} val {:?} cost {}", it.index, it.val, it.cost), format!("val {:?} cost 1", model.get(&it.index).map(|x| x.0)));
+                return;
+            }
+        }
+        let _ = p.close();
+    }
+}
